@@ -112,10 +112,15 @@ struct CircleC : ob::Constraint  // sphere of radius 1 intersected with the plan
 struct Params
 {
     double delta, lambda, tol;
+    int maxIter = 50;  // Newton budget of Constraint::project and of the atlas charts (Constraint::setMaxIterations)
 };
 // settings 3 and 4 (projected space only): lambda close to 1, where the "wandered too far" limit of discreteGeodesic trips on curved
 // manifolds, often on the very step that would arrive (the exit bookkeeping of the traversal loop is what gets exercised)
-static const Params PARAMS[] = {{0.05, 2.0, 1e-4}, {0.2, 5.0, 1e-4}, {0.02, 1.5, 1e-8}, {0.05, 1.1, 1e-4}, {0.1, 1.02, 1e-6}};
+static const Params PARAMS[] = {{0.05, 2.0, 1e-4}, {0.2, 5.0, 1e-4}, {0.02, 1.5, 1e-8}, {0.05, 1.1, 1e-4}, {0.1, 1.02, 1e-6},
+                                // setting 5 (atlas / tangent bundle): a Newton budget of 2 iterations with a coarse step, so that projections regularly run
+                                // out of iterations with a residual between the tolerance and its square root: whatever is then reported as a success
+                                // must still satisfy the constraint
+                                {0.2, 2.0, 1e-4, 2}};
 
 struct Setup
 {
@@ -140,6 +145,7 @@ struct Setup
             con = std::make_shared<CircleC>();
         n = con->getAmbientDimension();
         con->setTolerance(PARAMS[p].tol);
+        con->setMaxIterations(PARAMS[p].maxIter);
         auto rv = std::make_shared<ob::RealVectorStateSpace>(n);
         rv->setBounds(-4, 4);  // roomy: bounds cutting the manifold are outside the quantifier
         if (k == "projected")
@@ -465,8 +471,10 @@ struct AtlasSys
 
 static void runAtlas(const std::string &manifold, const std::string &kind, const vf::Args &a, vf::Report &rep)
 {
-    int depth = a.thorough() ? 5 : 4;
-    AtlasSys sys(manifold, kind, 0, 6, a.thorough());
+  for (int pset : {0, 5})
+  {
+    int depth = pset == 0 ? (a.thorough() ? 5 : 4) : (a.thorough() ? 3 : 2);
+    AtlasSys sys(manifold, kind, pset, 6, a.thorough());
     std::set<std::string> seen;
     std::vector<std::vector<std::string>> frontier{{}};
     seen.insert(sys.run({}, [](const std::string &, const std::string &) {}, nullptr));
@@ -519,7 +527,7 @@ static void runAtlas(const std::string &manifold, const std::string &kind, const
                 if (mode == 0 && (centre != 0 || dist != 0.0))
                     continue;
                 auto run = [&](const std::map<size_t, int> &dev) {
-                    Setup S(manifold, kind, 0, 6);
+                    Setup S(manifold, kind, pset, 6);
                     if (S.lat.size() < 4)
                         return std::vector<vc::Point>{};
                     S.css->as<ob::AtlasStateSpace>()->anchorChart(S.lat[0]);
@@ -552,8 +560,9 @@ static void runAtlas(const std::string &manifold, const std::string &kind, const
             rep.fail("C16|" + kind + "|nondeterministic-replay", "the same op history built two different atlases", "{" + sys.replayBase() + ",\"op\":\"sequence\",\"seq\":" + vf::jstrs(h) + "}");
         rep.validated++;
     }
-    rep.bounds["sequence_depth"] = std::to_string(depth);
+    rep.bounds[pset == 0 ? "sequence_depth" : "sequence_depth_newton_budget_2"] = std::to_string(depth);
     rep.bounds["alphabet"] = std::to_string(sys.alphabet.size());
+  }
 }
 
 // planners on the sphere: every vertex of a solution path is on the manifold
